@@ -288,6 +288,17 @@ func init() {
 		x.redirArgs = sp.args
 		return sp.fn, 3
 	}
+	intrinsics[zz+"NoReceiver"] = func(x *Exec, st *State, fr *Frame, fn *ssa.Function, a []Value) (Value, int) {
+		c, ok := a[0].(IfaceV).val.(ChanV)
+		if !ok || c.obj == 0 {
+			panic(x.unsupported("NoReceiver of a non-channel"))
+		}
+		n := *x.chanObj(st, c)
+		n.noRecv = true
+		st.heap[c.obj] = &n
+		st.mutGen++
+		return nil, 1
+	}
 	intrinsics[zz+"LockState"] = func(x *Exec, st *State, fr *Frame, fn *ssa.Function, a []Value) (Value, int) {
 		iv := a[0].(IfaceV)
 		p, ok := iv.val.(PtrV)
